@@ -35,8 +35,15 @@ Definition g_mid1 : gstate := grun_or deps_chain2 (mv_pre ++ mv_adopt1) gfresh0.
 Definition g_mid2 : gstate := grun_or deps_chain2 (mv_pre ++ mv_adopt1 ++ mv_adopt2) gfresh0.
 Definition g_end : gstate := grun_or deps_chain2 mv_all gfresh0.
 
+(* never read a gstate back from the VM (its normal form under the binder of `jd` explodes with every
+   GDie): only first-order observations are computed *)
+Definition gok (deps : nat -> list nat) (ms : list gmove) (g : gstate) : bool :=
+  match grun deps ms g with Some _ => true | None => false end.
+Lemma grun_some : forall deps ms g, gok deps ms g = true -> grun deps ms g = Some (grun_or deps ms g).
+Proof. intros deps ms g H. unfold gok, grun_or in *. destruct (grun deps ms g); [reflexivity|discriminate]. Qed.
+
 Lemma g_end_run : grun deps_chain2 mv_all gfresh0 = Some g_end.
-Proof. vm_compute. reflexivity. Qed.
+Proof. apply grun_some. vm_compute. reflexivity. Qed.
 
 (* the intermediate states are the interesting ones: scheduler in SAdopt, process in the body *)
 Example audit_adoption_states :
@@ -83,25 +90,30 @@ Qed.
 
 (* ... but only when the pid file had been written.  Killed between Popen and the write of the pid
    file, the running job IS launched a second time (the second process waits for the lock and then
-   skips the body): the development's own final_nonvacuous_chain2 has launches = 2.  Here the
-   moment at which the second Popen happens while the first process is inside its body: *)
+   skips the body): the development's own final_nonvacuous_chain2 has launches = 2.  Here: the orphan
+   is inside its body, no pid file; the next run does not see it and goes down the launch path (it
+   will Popen as soon as the lock is free): *)
 Definition mv_orphan : list gmove :=
   on 0 [LSubmit 0; LTest1 0; LPid 0; LTest2 0; LReady 0; LSLock 0; LTrunc 0; LWrite 0; LSpawn 0] ++ [GDie 0] ++
   on 0 [LExec 0] ++ on 0 [LSubmit 0; LTest1 0; LPid 0; LTest2 0; LReady 0; LSLock 0; LTrunc 0; LWrite 0] ++
   on 0 [LCrash 0] ++ on 0 [LPLock 0; LPTest 0; LRmFailed 0; LBegin 0].
+Definition mv_third : list gmove := on 0 [LSubmit 0; LTest1 0; LPid 0; LTest2 0; LReady 0].
 Example audit_orphan_not_adopted :
   let g := grun_or deps_one mv_orphan gfresh0 in
+  let g' := grun_or deps_one (mv_orphan ++ mv_third) gfresh0 in
   greachable1 deps_one g /\ procs (jd g 0) 0 = PBody /\ pidf (jd g 0) = PFNone /\
   (* a third run does not see the running job: it goes to the launch path *)
-  exists g', grun deps_one (on 0 [LSubmit 0; LTest1 0; LPid 0; LTest2 0; LReady 0]) g = Some g' /\
-             scheds (jd g' 0) 0 = SLock /\ procs (jd g' 0) 0 = PBody.
+  greachable1 deps_one g' /\ scheds (jd g' 0) 0 = SLock /\ sprelaunch (scheds (jd g' 0) 0) = true /\
+  procs (jd g' 0) 0 = PBody /\ launches (jd g' 0) = 1.
 Proof.
-  split; [|split; [|split]].
+  cbv zeta. split; [|split; [|split; [|split]]].
   - exists gfresh0. split; [apply gfresh0_fresh|].
-    eapply grun_sound1 with (ms := mv_orphan); [vm_compute; reflexivity|vm_compute; reflexivity].
+    eapply grun_sound1 with (ms := mv_orphan); [vm_compute; reflexivity|apply grun_some; vm_compute; reflexivity].
   - vm_compute; reflexivity.
   - vm_compute; reflexivity.
-  - eexists. split; [vm_compute; reflexivity|]. vm_compute. split; reflexivity.
+  - exists gfresh0. split; [apply gfresh0_fresh|].
+    eapply grun_sound1 with (ms := mv_orphan ++ mv_third); [vm_compute; reflexivity|apply grun_some; vm_compute; reflexivity].
+  - vm_compute. repeat split.
 Qed.
 
 (* ------------------------------------------------------------------ STRENGTH probes *)
@@ -136,32 +148,43 @@ Proof. eexists. split; [vm_compute; reflexivity|]. split; reflexivity. Qed.
       and released for ever; no body begins. *)
 Fixpoint retry (n : nat) : list label :=
   match n with 0 => [] | S n' => [LReady 0; LSLock 0; LAbort 0] ++ retry n' end.
+Lemma run_labels_app : forall a b st, run_labels (a ++ b) st =
+  match run_labels a st with Some st1 => run_labels b st1 | None => None end.
+Proof. induction a as [|l a IH]; intros b st; simpl; [reflexivity|]. destruct (lstep l st); [apply IH|reflexivity]. Qed.
+Lemma retry_round : forall st, scheds st 0 = SReady -> lock st = None ->
+  exists st', run_labels [LReady 0; LSLock 0; LAbort 0] st = Some st' /\ scheds st' 0 = SReady /\ lock st' = None /\
+              body_runs st' = body_runs st /\ launches st' = launches st.
+Proof.
+  intros st Hs Hl. eexists. split.
+  - unfold run_labels, lstep, lstep_with. rewrite Hs. simp. rewrite upd_same. rewrite Hl. simp. rewrite upd_same. reflexivity.
+  - simp. rewrite upd_same. simpl. repeat split.
+Qed.
+Lemma retry_all : forall m st, scheds st 0 = SReady -> lock st = None ->
+  exists st', run_labels (retry m) st = Some st' /\ scheds st' 0 = SReady /\ lock st' = None /\
+              body_runs st' = body_runs st /\ launches st' = launches st.
+Proof.
+  induction m as [|m IH]; intros st Hs Hl.
+  - exists st. simpl. auto.
+  - destruct (retry_round st Hs Hl) as (st1 & R & A & B & C & D).
+    destruct (IH st1 A B) as (st2 & R2 & A2 & B2 & C2 & D2).
+    exists st2. change (retry (S m)) with ([LReady 0; LSLock 0; LAbort 0] ++ retry m).
+    rewrite run_labels_app, R. repeat split; congruence.
+Qed.
 Lemma retry_progress : forall n, forallb progress_label (retry n) = true.
 Proof. induction n; simpl; auto. Qed.
 Lemma audit_livelock_of_progress_labels : forall n,
+  forallb progress_label (retry n) = true /\
   exists st, run_labels (tr_sched_pretest ++ retry n) fresh = Some st /\
              scheds st 0 = SReady /\ body_runs st = 0 /\ launches st = 0 /\ lock st = None.
 Proof.
-  intros n.
-  assert (H : forall m st, scheds st 0 = SReady -> lock st = None ->
-            exists st', run_labels (retry m) st = Some st' /\ scheds st' 0 = SReady /\ lock st' = None /\
-                        body_runs st' = body_runs st /\ launches st' = launches st).
-  { induction m as [|m IH]; intros st Hs Hl.
-    - exists st. simpl. auto.
-    - simpl. unfold lstep at 1, lstep_with. rewrite Hs.
-      unfold lstep at 1, lstep_with. cbn [scheds set_sched]. rewrite upd_same. cbn [lock set_sched]. rewrite Hl.
-      unfold lstep at 1, lstep_with. cbn [scheds set_sched set_lock]. rewrite upd_same.
-      match goal with |- exists st', run_labels _ ?X = _ /\ _ => destruct (IH X) as (st' & A & B & C & D & E) end.
-      + cbn [scheds set_sched set_lock]. apply upd_same.
-      + cbn [lock set_sched set_lock release]. simpl. rewrite Nat.eqb_refl. reflexivity.
-      + exists st'. repeat split; auto. }
-  destruct (H n (match run_labels tr_sched_pretest fresh with Some s => s | None => fresh end) eq_refl eq_refl)
-    as (st' & A & B & C & D & E).
-  exists st'. split.
-  - replace (run_labels (tr_sched_pretest ++ retry n) fresh) with
-      (run_labels (retry n) (match run_labels tr_sched_pretest fresh with Some s => s | None => fresh end)); [exact A|].
-    clear. generalize (retry n). intros l. reflexivity.
-  - repeat split; auto.
+  intros n. split; [apply retry_progress|].
+  destruct (run_labels tr_sched_pretest fresh) as [s0|] eqn:E0; [|vm_compute in E0; discriminate].
+  assert (Hs : scheds s0 0 = SReady) by (vm_compute in E0; inversion E0; reflexivity).
+  assert (Hl : lock s0 = None) by (vm_compute in E0; inversion E0; reflexivity).
+  assert (Hb : body_runs s0 = 0) by (vm_compute in E0; inversion E0; reflexivity).
+  assert (Hla : launches s0 = 0) by (vm_compute in E0; inversion E0; reflexivity).
+  destruct (retry_all n s0 Hs Hl) as (st' & R & A & B & C & D).
+  exists st'. rewrite run_labels_app, E0. repeat split; congruence.
 Qed.
 
 (* 4. tokens: nothing in JobDir.v is a token.  The only trace of them is LAbort. *)
